@@ -267,6 +267,35 @@ def _strip_not(t):
     return t
 
 
+def _parents_with_extras(conds, dv, lv, cand_p, from_levels):
+    """The list of a level's parents built with further conditions: being a key of the candidates / having a non-empty
+    candidate list changes nothing; a condition on the parent's own state (active, hibernating, ...) removes parents whose
+    candidate lists are then never ranked nor cut."""
+    atoms = []
+    for c in conds:
+        atoms.extend(c.values if isinstance(c, ast.BoolOp) and isinstance(c.op, ast.And) else [c])
+    has_level = from_levels
+    has_member = not from_levels
+    state = unknown = False
+    for a in atoms:
+        t = canon(a)
+        if cond_is(a, f"{dv}.level == {lv}") or cond_is(a, f"{lv} == {dv}.level") or t in (f"{dv}._level=={lv}",):
+            has_level = True
+        elif t in (f"{dv}in{cand_p}", f"{dv}in{cand_p}.keys()"):
+            has_member = True
+        elif t in (f"{cand_p}[{dv}].individuals", f"len({cand_p}[{dv}].individuals)>0", f"len({cand_p}[{dv}].individuals)!=0", f"len({cand_p}[{dv}].individuals)>=1", f"{cand_p}[{dv}].individuals!=[]"):
+            pass
+        elif re.fullmatch(r"(not)?" + re.escape(dv) + r"\.(is_active|_active|_hibernating|is_hibernating)", t):
+            state = True
+        else:
+            unknown = True
+    if has_level and has_member and state:
+        return VIOLATION
+    if has_level and has_member and not unknown:
+        return OK
+    return INCONCLUSIVE
+
+
 def o4(ctx: Ctx, ties_matter: bool = True):
     """O4 cardinality of LevelLimit: at most (limit - active) candidates survive on each level."""
     ci = ctx.prog.cls("LevelLimit")
@@ -324,6 +353,14 @@ def o4(ctx: Ctx, ties_matter: bool = True):
     if not okg:
         obs.append(ctx.ob("C08.O4", f, G.test, status=VIOLATION if shape else INCONCLUSIVE, detail=f"guard is `{norm(G.test)}`, not `active + len(candidates) > limit` (with `>=` or another bound the else-branch no longer guarantees active + candidates <= limit)", construct="guard"))
         return obs
+    # the list counted by the guard must be the list of CANDIDATES: counting the parents they come from (one parent may offer
+    # several candidates) lets a level pass uncut although its candidates outnumber the free slots
+    for nm, dd in defs.items():
+        if nm != C and len(dd) >= 1 and isinstance(dd[0], (ast.ListComp, ast.Call)):
+            comp0 = dd[0].args[0] if isinstance(dd[0], ast.Call) and norm(dd[0].func) == "sorted" and dd[0].args else dd[0]
+            if isinstance(comp0, (ast.ListComp, ast.GeneratorExp)) and len(comp0.generators) == 2 and isinstance(comp0.generators[0].iter, ast.Name) and comp0.generators[0].iter.id == C and canon(comp0.generators[1].iter).startswith(f"{cand_p}["):
+                obs.append(ctx.ob("C08.O4", f, G.test, status=VIOLATION, detail=f"guard is `{norm(G.test)}`: it counts the PARENTS `{C}`, while the candidates that would be created are `{nm}` (several per parent): a level whose parents fit into the free slots is not cut although its candidates do not", construct="guard"))
+                return obs
     obs.append(ctx.ob("C08.O4", f, t, detail=f"guard: {norm(A)} + len({C}) > limit", construct="guard"))
     # ---- A = number of is_active demes of tree.levels[level + 1]
     a_txt = canon(A, defs)
@@ -377,6 +414,23 @@ def o4(ctx: Ctx, ties_matter: bool = True):
             st_a, why_a = VIOLATION, f"`{norm(Aexp)[:90]}` counts only the children of `{norm(g1.iter)}` (the parents that have candidates this round), not every active deme of the target level: an under-count lets the level overflow"
     elif isinstance(Aexp, ast.Constant):
         st_a, why_a = VIOLATION, f"the number of active demes is taken to be the constant {norm(Aexp)}"
+    if st_a == INCONCLUSIVE and isinstance(Aexp, ast.Call) and norm(Aexp.func) in ("len", "sum") and Aexp.args and isinstance(Aexp.args[0], (ast.ListComp, ast.GeneratorExp)) and len(Aexp.args[0].generators) == 1:
+        # counted through a listing accessor of the tree: [d for l, d in tree.<listing> if l == level + 1]
+        g = Aexp.args[0].generators[0]
+        if isinstance(g.iter, ast.Attribute) and canon(g.iter.value) == tree_p and isinstance(g.target, ast.Tuple) and len(g.target.elts) == 2 and all(isinstance(x, ast.Name) for x in g.target.elts):
+            from .common import deme_listing
+
+            ln, dn = g.target.elts[0].id, g.target.elts[1].id
+            d = deme_listing(ctx, "DemeTree", g.iter.attr)
+            lvl_ok = len(g.ifs) >= 1 and any(cond_is(c, f"{ln} == {lv} + 1") or cond_is(c, f"{lv} + 1 == {ln}") or canon(c) in (f"{ln}=={lv}+1", f"{ln}==1+{lv}", f"{ln}-1=={lv}") for c in g.ifs)
+            own_extra = [c for c in g.ifs if not (cond_is(c, f"{ln} == {lv} + 1") or canon(c) in (f"{ln}=={lv}+1", f"{ln}==1+{lv}", f"{lv}+1=={ln}", f"{ln}-1=={lv}", f"{dn}.is_active"))]
+            counts_elems = norm(Aexp.func) == "len" or canon(Aexp.args[0].elt) in ("1", "True")
+            extra = sorted(x for x in d["filters"] if x != "is_active")
+            if d["elt"] == "pair" and d["level_no_exact"] and d["levels"] == 0 and lvl_ok and counts_elems and not own_extra:
+                if not extra:
+                    st_a, why_a = OK, f"active = number of demes {tree_p}.{g.iter.attr} lists for the target level" + ("" if "is_active" in d["filters"] or any(canon(c) == f"{dn}.is_active" for c in g.ifs) else " (all demes: an over-count, the bound still holds)")
+                elif any(x.startswith("?") or x.startswith("not ") for x in extra):
+                    st_a, why_a = VIOLATION, f"`{norm(Aexp)[:90]}` counts only the demes {tree_p}.{g.iter.attr} lists, which leaves out active demes ({', '.join(extra)[:100]}): an under-count lets the level overflow"
     obs.append(ctx.ob("C08.O4", f, Aexp, status=st_a, detail="active = number of is_active demes on the target level" if st_a == OK and why_a.startswith("cannot") else why_a, construct="active-count"))
     # ---- C = concatenation of candidates[d].individuals over the parents D of this level; later filtered lists are exactly those
     cdefs = [dd for dd in defs.get(C, []) if not (isinstance(dd, ast.Call) and norm(dd.func) == "sorted" and dd.args and norm(dd.args[0]) == C)]
@@ -405,7 +459,30 @@ def o4(ctx: Ctx, ties_matter: bool = True):
             st_d = OK
         elif len(cs) == 1 and isinstance(cs[0], ast.Compare) and f"{dv}.level" in canon(cs[0]) and lv in canon(cs[0]):
             st_d = VIOLATION
-    obs.append(ctx.ob("C08.O4", f, ddefs[0] if ddefs else G, status=st_d, detail=f"{D} = the candidate parents on level `{lv}`" if st_d == OK else f"`{D}` is not exactly the candidate parents whose level is `{lv}`", construct="level-parents"))
+        else:
+            st_d = _parents_with_extras(cs, dv, lv, cand_p, from_levels=False)
+    elif len(ddefs) == 1 and isinstance(ddefs[0], ast.ListComp) and len(ddefs[0].generators) == 1 and canon(ddefs[0].generators[0].iter) in (f"{tree_p}.levels[{lv}]", f"{tree_p}._levels[{lv}]") and isinstance(ddefs[0].generators[0].target, ast.Name) and norm(ddefs[0].elt) == ddefs[0].generators[0].target.id:
+        # the level's demes that are keys of the candidates: the same set
+        dv = ddefs[0].generators[0].target.id
+        st_d = _parents_with_extras(ddefs[0].generators[0].ifs, dv, lv, cand_p, from_levels=True)
+    elif len(ddefs) == 1 and isinstance(ddefs[0], ast.ListComp) and len(ddefs[0].generators) == 1 and isinstance(ddefs[0].generators[0].iter, ast.Attribute) and canon(ddefs[0].generators[0].iter.value) == tree_p and isinstance(ddefs[0].generators[0].target, ast.Tuple) and len(ddefs[0].generators[0].target.elts) == 2 and all(isinstance(x, ast.Name) for x in ddefs[0].generators[0].target.elts) and norm(ddefs[0].elt) == ddefs[0].generators[0].target.elts[1].id:
+        # the parents are taken from one of the tree's listings (pairs of level number and deme), restricted to the candidates' keys
+        from .common import deme_listing
+
+        g0 = ddefs[0].generators[0]
+        ln, dv = g0.target.elts[0].id, g0.target.elts[1].id
+        dl = deme_listing(ctx, "DemeTree", g0.iter.attr)
+        conds = []
+        for c in g0.ifs:
+            conds.extend(c.values if isinstance(c, ast.BoolOp) and isinstance(c.op, ast.And) else [c])
+        lvl_ok = any(canon(c) in (f"{ln}=={lv}", f"{lv}=={ln}", f"{dv}.level=={lv}") for c in conds)
+        member = any(canon(c) in (f"{dv}in{cand_p}", f"{dv}in{cand_p}.keys()") for c in conds)
+        if dl["elt"] == "pair" and dl["level_no_exact"] and lvl_ok and member and dl["filters"]:
+            # the listing selects by the demes' state (active, ...): parents outside it keep every candidate they offered
+            st_d = VIOLATION
+        elif dl["elt"] == "pair" and dl["level_no_exact"] and lvl_ok and member and dl["levels"] is not None and dl["levels"] >= -1 and len(conds) == 2:
+            st_d = OK
+    obs.append(ctx.ob("C08.O4", f, ddefs[0] if ddefs else G, status=st_d, detail=f"{D} = the candidate parents on level `{lv}`" if st_d == OK else f"`{D}` (`{norm(ddefs[0])[:110] if ddefs else '?'}`) is not exactly the candidate parents whose level is `{lv}`" + (": the candidates of a parent left out (another level, or a parent that has just stopped) are neither ranked nor cut, so more than the free slots survive" if st_d == VIOLATION else ""), construct="level-parents"))
     # ---- sort of C
     sorts = []
     for n in L.body:
